@@ -5,6 +5,7 @@ ArgExtremum  fold loops (value variable + best variable, or comparison against t
 RunningMean  M = (M*n + r)/(n+1)
 """
 import ast
+import copy
 
 from .model import is_self_attr, method_name
 from .report import norm_src
@@ -90,14 +91,79 @@ def _enclosing_chain(par, node, stop):
     return out
 
 
+def core_comparison(test):
+    """A compound update test of a fold, e.g. `r >= m and (best is None or r > m)`: when the test is a boolean combination of
+    order comparisons of ONE pair (a, b) and of None-tests of one variable, and it holds whenever a is on the winning side
+    of b and fails whenever it is on the losing side, it is an arg-extremum update.  Returns (Compare, none_var) with Compare
+    the equivalent single comparison `a OP b` (strict when ties are rejected once an incumbent exists), else None."""
+    atoms = []
+    pair = [None]
+    nonev = [None]
+    ok = [True]
+
+    def ev(e, world):
+        rel, isnone = world
+        if isinstance(e, ast.BoolOp):
+            vals = [ev(v, world) for v in e.values]
+            return all(vals) if isinstance(e.op, ast.And) else any(vals)
+        if isinstance(e, ast.UnaryOp) and isinstance(e.op, ast.Not):
+            return not ev(e.operand, world)
+        if isinstance(e, ast.Compare) and len(e.ops) == 1:
+            op = _OPS.get(type(e.ops[0]))
+            l, r = norm_src(e.left), norm_src(e.comparators[0])
+            if op is not None:
+                if pair[0] is None:
+                    pair[0] = (l, r, e)
+                if (l, r) == pair[0][:2]:
+                    o = op
+                elif (r, l) == pair[0][:2]:
+                    o = _FLIP[op]
+                else:
+                    ok[0] = False
+                    return False
+                return {">": rel > 0, ">=": rel >= 0, "<": rel < 0, "<=": rel <= 0}[o]
+            if isinstance(e.ops[0], (ast.Is, ast.IsNot)) and isinstance(e.comparators[0], ast.Constant) and e.comparators[0].value is None and \
+                    isinstance(e.left, ast.Name):
+                if nonev[0] is None:
+                    nonev[0] = e.left.id
+                if nonev[0] != e.left.id:
+                    ok[0] = False
+                    return False
+                return isnone if isinstance(e.ops[0], ast.Is) else not isnone
+        ok[0] = False
+        return False
+    table = {(rel, n): ev(test, (rel, n)) for rel in (-1, 0, 1) for n in (True, False)}
+    if not ok[0] or pair[0] is None:
+        return None
+    base = pair[0][2]
+    if all(table[(1, n)] for n in (True, False)) and not any(table[(-1, n)] for n in (True, False)):
+        op = ast.GtE() if table[(0, False)] else ast.Gt()
+    elif all(table[(-1, n)] for n in (True, False)) and not any(table[(1, n)] for n in (True, False)):
+        op = ast.LtE() if table[(0, False)] else ast.Lt()
+    else:
+        return None
+    cmp_ = ast.copy_location(ast.Compare(left=base.left, ops=[op], comparators=[base.comparators[0]]), base)
+    return cmp_, nonev[0]
+
+
 def find_folds(fn):
     """All arg-extremum folds in a function."""
     par = _parents(fn)
     folds = []
-    for I in ast.walk(fn):
-        if not isinstance(I, ast.If) or not isinstance(I.test, ast.Compare) or len(I.test.ops) != 1:
+    for I0 in ast.walk(fn):
+        if not isinstance(I0, ast.If):
             continue
-        op = _OPS.get(type(I.test.ops[0]))
+        I = I0
+        none_var = None
+        test = I.test
+        if isinstance(test, (ast.BoolOp, ast.UnaryOp)):
+            cc = core_comparison(test)
+            if cc is None:
+                continue
+            test, none_var = cc
+        if not isinstance(test, ast.Compare) or len(test.ops) != 1:
+            continue
+        op = _OPS.get(type(test.ops[0]))
         if op is None:
             continue
         # innermost enclosing for loop
@@ -121,7 +187,7 @@ def find_folds(fn):
         if not cand_names:
             continue
         cand = cand_names[0]
-        left, right = I.test.left, I.test.comparators[0]
+        left, right = test.left, test.comparators[0]
         inside_if = set(id(x) for x in ast.walk(I))
         body_stmts = [b for b in _flatten_block(inner.body) if id(b) not in inside_if]
         L = _inline_temps(left, body_stmts, None)
@@ -181,6 +247,8 @@ def find_folds(fn):
                 continue
             f.best = norm_src(best.targets[0])
             f.best_value = best.value
+            if none_var is not None and none_var != f.best:
+                f.also.append("the update test also consults '%s is None'" % none_var)
             if not val_ok and not any(norm_src(s.targets[0]) == f.value_var for s in assigns):
                 f.also.append("incumbent value '%s' is never updated" % f.value_var)
             f.seed, f.loop = _seed_of(fn, par, f.value_var, inner)
